@@ -496,6 +496,19 @@ class Program:
         try:
             src = open(full).read().split('\n')
             text = ' '.join(l.strip() for l in src[line - 1:line + 6])
+            # generic parameters may nest (`impl<T: Add<Output = T>> ...`): skip them bracket-balanced before matching the rest
+            m0 = re.match(r'^(?:unsafe\s+)?impl\s*<', text)
+            if m0:
+                depth, j = 0, m0.end() - 1
+                while j < len(text):
+                    if text[j] == '<':
+                        depth += 1
+                    elif text[j] == '>' and text[j - 1] not in '-=':
+                        depth -= 1
+                        if depth == 0:
+                            break
+                    j += 1
+                text = 'impl ' + text[j + 1:].lstrip()
             m = re.match(r'^(?:unsafe\s+)?impl\s*(<.*?>)?\s*(.*?)\s*(?:where\b.*)?\{', text)
             if not m:
                 # derive attribute: `#[derive(Clone, ...)]` -> the item follows
